@@ -13,6 +13,10 @@
 #include <osmium/visitor.hpp>
 
 #include <algorithm>
+#include <cerrno>
+#include <cstring>
+#include <new>
+#include <system_error>
 #include <cstdio>
 #include <map>
 #include <memory>
@@ -66,6 +70,25 @@ struct FdCleanup {
         }
     }
 };
+
+
+// A failure of the *real* machine under the harness (temporary directory full, out of descriptors or memory) is not a
+// verdict about libosmium: reported as class "infrastructure", which the driver turns into exit 2, never a VIOLATION.
+void report_exception(const std::string& sig, const std::string& what_prefix, const std::exception& e) {
+    const auto* se = dynamic_cast<const std::system_error*>(&e);
+    if (se) {
+        const int v = se->code().value();
+        if (v == ENOSPC || v == EMFILE || v == ENFILE || v == ENOMEM || v == EDQUOT || v == EROFS) {
+            sim::report("infrastructure", "infrastructure/c12/" + std::string{std::strerror(v)}, what_prefix + e.what());
+            return;
+        }
+    }
+    if (dynamic_cast<const std::bad_alloc*>(&e)) {
+        sim::report("infrastructure", "infrastructure/c12/bad_alloc", what_prefix + e.what());
+        return;
+    }
+    sim::report("oracle", sig, what_prefix + e.what());
+}
 
 struct History {
     std::vector<id_type> ids;   // distinct, in insertion order
@@ -261,7 +284,7 @@ void run_maps() {
             }
             ::unlink(real.c_str());
         } catch (const std::exception& e) {
-            sim::report("oracle", "C12.map/" + t + "/unexpected-exception", t + " threw " + e.what());
+            report_exception("C12.map/" + t + "/unexpected-exception", t + " threw ", e);
         }
     }
     sim::end_run();
@@ -330,7 +353,7 @@ void run_growth(bool flex_big = false) {
         }
         sim::probe("sparse or dense mmap/file vector grew beyond 2^20 entries while filling");
     } catch (const std::exception& e) {
-        sim::report("oracle", "C12.growth/" + t + "/unexpected-exception", t + " threw " + e.what());
+        report_exception("C12.growth/" + t + "/unexpected-exception", t + " threw ", e);
     }
     sim::end_run();
     sim::set_map_policy(false, -1);
@@ -448,7 +471,7 @@ void run_handler() {
             ++w;
         }
     } catch (const std::exception& e) {
-        sim::report("oracle", "C12.handler/unexpected-exception", e.what());
+        report_exception("C12.handler/unexpected-exception", "", e);
     }
     sim::end_run();
     sim::set_map_policy(false, -1);
